@@ -1,12 +1,37 @@
 (* C01 — Every frame written to a device is self-consistent and correctly signed *)
-Require Import AS.Base.Prelude AS.Base.Hex AS.Base.Template AS.Gen.Extracted AS.Spec.Frame
-  AS.Model.DeviceTools AS.Proofs.FrameProofs AS.Props.C01_demo.
+Require Import AS.Base.Prelude AS.Base.Hex AS.Base.Template AS.Base.Exchange AS.Gen.Extracted AS.Spec.Frame
+  AS.Model.DeviceTools AS.Model.Remotes AS.Model.ScheduleTools AS.Model.Api AS.Model.Ops
+  AS.Proofs.FrameProofs AS.Proofs.FrameAll AS.Proofs.OpsFrames.
+Local Open Scope N_scope.
 
-(* partial: the control frame only; the remaining operations are added as they are proved *)
-Theorem C01_control_frame_partial : forall sess ts devid cmd timer,
-  hexstr 8 sess -> hexstr 8 ts -> hexstr 6 devid -> hexstr 1 cmd -> hexstr 8 timer ->
-  exists p out bs,
-    format T_SEND_CONTROL_PACKET [AStr sess; AStr ts; AStr devid; AStr cmd; AStr timer] = Ok p /\
-    sign_packet_with_crc_key p = Ok out /\ unhexlify out = Some bs /\ frame_okb bs = true.
-Proof. exact control_frame_wellformed. Qed.
-Print Assumptions C01_control_frame_partial.
+(* For every operation of both APIs (Model/Ops.v: the 12 kinds, thermostat control with its state query, status frame,
+   IR frame and separate swing frame), every configuration with a 6-hex-digit id and 2-hex-digit key, every clock
+   reading, every accepted argument and every script of device replies whose login reply has at least 12 bytes:
+   every byte string the operation writes satisfies the Spec's frame predicate (Spec/Frame.v: magic, LE16 of its own
+   length, terminator, trailing double-CRC signature).  Rejected arguments, odd-nibbled or over-long texts write
+   nothing beyond the login frame, which is covered by the same statement. *)
+Theorem C01_every_written_frame_is_well_formed : forall c now o script,
+  wf_cfg c -> accepted o -> wfs script -> (12 <= length (hd [] script))%nat ->
+  Forall (fun f => frame_okb f = true) (fst (Exchange.run (run_op c now o) script)).
+Proof. exact all_operations_frames. Qed.
+Print Assumptions C01_every_written_frame_is_well_formed.
+
+(* the building blocks, for every input *)
+Theorem C01_length_rewrite : forall m b, unhexlify m = Some b -> (8 <= length m)%nat -> N.of_nat (length b + 4) < 65536 ->
+  set_message_length false m = Ok (s2l "fef0" ++ hexlify (le16 (N.of_nat (length b + 4))) ++ skipn 8 m) /\
+  length (s2l "fef0" ++ hexlify (le16 (N.of_nat (length b + 4))) ++ skipn 8 m) = length m.
+Proof. exact AS.Proofs.LengthProofs.set_message_length_ok. Qed.
+Print Assumptions C01_length_rewrite.
+
+(* non-vacuity: a concrete exchange meets the premises and writes two frames *)
+Example C01_example :
+  let c := {| device_id := s2l "ab1c2d"; device_key := s2l "18" |} in
+  let script := [repeat 7 24; [1]] in
+  wf_cfg c /\ length (fst (Exchange.run (run_op c 1700000000 (OControl true 15)) script)) = 2%nat /\ wfs script /\ (12 <= length (hd [] script))%nat.
+Proof.
+  split; [constructor; try reflexivity; apply Forall_forall; apply forallb_forall; vm_compute; reflexivity|].
+  split; [vm_compute; reflexivity|]. split; [|vm_compute; lia].
+  assert (H : forallb (forallb (fun b => b <? 256)) [repeat 7 24; [1]] = true) by (vm_compute; reflexivity).
+  apply Forall_forall; intros r Hr; apply Forall_forall; intros b Hb.
+  rewrite forallb_forall in H. specialize (H r Hr). rewrite forallb_forall in H. apply N.ltb_lt, H, Hb.
+Qed.
